@@ -19,11 +19,16 @@ CORE = ["location.location_impl.SingleInterval", "location.location_impl.Compoun
         "gene.collections.AnnotationCollection", "io.gff3.rows.GFFAttributes", "io.gff3.rows.GFFRow"]
 
 
+def _stale_sites():
+    from .frames import STALE_MEMO_SITES
+    return dict(STALE_MEMO_SITES)
+
+
 class FrameKind(Case):
     props = ("C10",)
     name = "frame / kind / order / identity obligations on every public method of the core classes"
     func = "gene.interval.AbstractFeatureInterval._merge_qualifiers"
-    static = dict(classes=CORE, kinds=("frame", "kind", "order", "identity"), accepted={},
+    static = dict(classes=CORE, kinds=("frame", "kind", "order", "identity"), accepted={}, known=_stale_sites(),
                   # module-level helpers that work on their operands' block lists / qualifier containers
                   functions=["location.location_impl._union_preserve_overlaps", "util.hashing._order_set",
                              "util.hashing._order_dict_of_possible_sets", "util.hashing._encode_object_for_digest",
